@@ -195,6 +195,11 @@ def run(cx, rep):
         cnt = [c for c in calls if any(a.get("place") for a in c.term["args"])]
         for c in calls:
             # the counter argument must be a `&mut` borrow of the frontend's own `counter` field (not a copy)
+            if len(c.term["args"]) < 4:
+                rep.ob("C07.2", "counter-threaded", False,
+                       "semtype_to_runtypes is no longer handed the compilation's name counter (`&mut self.counter`): the rule cannot establish that generated helper names are defined exactly once",
+                       "%s:%s" % (c.file, c.line), sample={"counter_argument_is_mut_borrow_of_field": False})
+                continue
             a = c.term["args"][3]
             ok = False
             l = op_place(a)["l"] if op_place(a) else None
@@ -348,6 +353,8 @@ def run(cx, rep):
     rep.rule("C07.9", "a function that enumerates the values of an enum lists every variant once")
     n79 = enum_enumerator_rule(F, rep, "C07.9", lambda f: f.crate != WASM)
     rep.floor("C07.9", "parameterless functions returning the list of an enum's values", n79, 2)
+    # ---------------------------------------------------------------- C07.11
+    keyof_duality_rule(cx, rep, "C07.11")
     # ---------------------------------------------------------------- C07.10
     rep.rule("C07.10", "a key looked up in the declared properties of an object is not answered without its index signature")
     declared_lookup_rule(cx, rep, "C07.10")
@@ -935,3 +942,112 @@ def declared_lookup_rule(cx, rep, rid):
                        "%s takes an object type apart without requiring `indexed_properties: None` and looks a key up in its declared properties (%s) without consulting the index signature where the key is missing: for an object with an index signature an undeclared key is answered as if the object had no such key (`Record<string, number>[\"a\" | \"b\"]` loses members)" % (g, "line %s" % L.get("line")),
                        "%s:%s" % (f.file, L.get("line")), sample={"fn": g, "index_signature_binding": "bound" if I else "ignored"})
     rep.floor(rid, "key lookups in the declared properties of objects that may have an index signature", n_sites, 1)
+
+
+# ---------------------------------------------------------------------------------------------------- C07.11
+def keyof_duality_rule(cx, rep, rid):
+    """keyof is contravariant: keyof (A | B) = keyof A & keyof B and keyof (A & B) = keyof A | keyof B.  The semantic
+    keyof walks the disjunctive normal form of the object part: across the CLAUSES of the DNF (a union) the key sets
+    are intersected, across the POSITIVE ATOMS of one clause (an intersection) they are united.  Decided on the typed
+    HIR of the engine: in the function that reads the property names of object atoms (`.vs.keys()` of the atom
+    table's entries) under a walk of `bdd_to_dnf(..)`, the region that iterates the `.positive` atoms of a clause
+    (for-loop or iterator chain, local closures and helpers followed) combines with `union` and never with
+    `intersect`; the region that iterates the clauses combines - outside the atom region - with `intersect`."""
+    F = cx.rs
+    from facts import walk as hwalk, children
+    rep.rule(rid, "semantic keyof: key sets are united across the positive atoms of a clause and intersected across clauses")
+    def closures_of(tree):
+        out = {}
+        for n in hwalk(tree["body"]):
+            if n["k"] == "LetStmt" and n["pat"]["k"] == "P.Binding" and isinstance(n.get("init"), dict) and n["init"].get("k") == "Closure":
+                out[n["pat"].get("lid")] = n["init"]
+        return out
+    def ops_reached(crate, tree, node, depth=3, seen=None, skip=()):
+        """SemTypeOps combinators (union / intersect / diff) evaluated from `node`, following local closures and
+        local helper functions; subtrees in `skip` are not entered"""
+        seen = seen if seen is not None else set()
+        cl = closures_of(tree)
+        out = set()
+        stack = [node]
+        while stack:
+            n = stack.pop()
+            if any(n is x for x in skip):
+                continue
+            if n["k"] == "MethodCall" and "SemTypeOps::" in (n.get("callee") or "") and n.get("method") in ("union", "intersect", "diff"):
+                out.add(n["method"])
+            if n["k"] == "Call":
+                fpath = n.get("f") or {}
+                if fpath.get("k") == "Path" and fpath.get("res") == "local" and fpath.get("lid") in cl and ("c", fpath["lid"]) not in seen:
+                    seen.add(("c", fpath["lid"]))
+                    out |= ops_reached(crate, tree, cl[fpath["lid"]]["body"], depth, seen)
+            if n["k"] in ("Call", "MethodCall") and depth > 0:
+                cal = n.get("callee") if n["k"] == "Call" else (n.get("resolved") or n.get("callee"))
+                tg = F._callee_gid(crate, cal or "")
+                if tg in F.hir and tg not in seen and (F.fns.get(tg) is not None and (F.fns[tg].file or "").startswith("packages/beff-core/src/subtyping")) \
+                        and "SemTypeOps" not in tg and "BddOps" not in tg:
+                    seen.add(tg)
+                    out |= ops_reached(crate, F.hir[tg], F.hir[tg]["body"], depth - 1, seen)
+            stack.extend(children(n))
+        return out
+    def iter_regions(tree, pred):
+        """(region node, body node) for loops / iterator chains whose iterated expression satisfies pred"""
+        for n in hwalk(tree["body"]):
+            if n["k"] == "Match" and n.get("src") == "ForLoopDesugar" and n["scrut"].get("k") == "Call" and n["scrut"].get("args"):
+                if any(pred(x) for x in hwalk(n["scrut"]["args"][0])):
+                    yield n, n
+            elif n["k"] == "MethodCall" and n.get("args") and any(a.get("k") == "Closure" for a in n["args"]) and \
+                    (n.get("callee") or "").startswith("std::iter::Iterator::"):
+                root = n["recv"]
+                if any(pred(x) for x in hwalk(root)):
+                    yield n, n
+    n_found = 0
+    for g, tree in sorted(F.hir.items()):
+        f = F.fns.get(g)
+        if f is None or f.kind == "Closure" or not (f.file or "").startswith("packages/beff-core/src/subtyping"):
+            continue
+        def is_pos(x):
+            return x["k"] == "Field" and x.get("name") == "positive" and (x.get("adt") or "").endswith("Conjunction")
+        atom_regions = [r for r, _b in iter_regions(tree, is_pos)]
+        if not atom_regions:
+            continue
+        # this is the keyof walk only if the atom region reads the property NAMES of the atoms
+        def reads_keys(node):
+            for x, _o in _walk_inl_node(F, f.crate, node, 2):
+                if x["k"] == "MethodCall" and x.get("method") == "keys" and any(y["k"] == "Field" and y.get("name") == "vs" and (y.get("adt") or "").endswith("MappingAtomicType") for y in hwalk(x["recv"])):
+                    return True
+            return False
+        atom_regions = [r for r in atom_regions if reads_keys(r)]
+        if not atom_regions:
+            continue
+        n_found += 1
+        for r in atom_regions:
+            ops = ops_reached(f.crate, tree, r)
+            rep.ob(rid, "%s/atoms-united" % g.rsplit("::", 1)[-1], "intersect" not in ops and "union" in ops,
+                   "%s combines the key sets of the positive atoms of ONE clause with %s: the atoms of a clause are intersected types, and keyof of an intersection is the UNION of the members' keys - `keyof (A & B)` would lose every key that only one of A, B declares" % (g, sorted(ops)),
+                   "%s:%s" % (f.file, r.get("line")), sample={"fn": g, "combinators_in_atom_region": sorted(ops)})
+        # clause regions: loops over the DNF that contain an atom region
+        def is_dnf(x):
+            return (x["k"] == "Call" and (x.get("callee") or "").endswith("bdd_to_dnf")) or (x["k"] == "Path" and x.get("res") == "local" and "dnf::Conjunction>" in (x.get("ty") or "") and "Vec<" in (x.get("ty") or ""))
+        for r, _b in iter_regions(tree, is_dnf):
+            inner = [a for a in atom_regions if any(x is a for x in hwalk(r))]
+            if not inner:
+                continue
+            ops = ops_reached(f.crate, tree, r, skip=inner)
+            rep.ob(rid, "%s/clauses-intersected" % g.rsplit("::", 1)[-1], "intersect" in ops and "union" not in ops,
+                   "%s combines the key sets of the CLAUSES of the normal form with %s: the clauses are united types, and keyof of a union is the INTERSECTION of the members' keys" % (g, sorted(ops)),
+                   "%s:%s" % (f.file, r.get("line")), sample={"fn": g, "combinators_in_clause_region": sorted(ops)})
+    rep.floor(rid, "semantic keyof walks (atom regions that read property names)", n_found, 1)
+
+
+def _walk_inl_node(F, crate, node, depth, seen=None):
+    from facts import walk as hwalk
+    seen = seen if seen is not None else set()
+    for n in hwalk(node):
+        yield n, None
+        if depth > 0 and n["k"] in ("Call", "MethodCall"):
+            cal = n.get("callee") if n["k"] == "Call" else (n.get("resolved") or n.get("callee"))
+            tg = F._callee_gid(crate, cal or "")
+            if tg in F.hir and tg not in seen:
+                seen.add(tg)
+                for x, o in _walk_inl_node(F, crate, F.hir[tg]["body"], depth - 1, seen):
+                    yield x, (o or tg)
